@@ -177,6 +177,8 @@ def address_to_scriptpubkey(addr):
     # try with base58 address
     try:
         data = base58.decode_check(addr)
+        if len(data) != 21:
+            raise EmbitError("Invalid base58 address")
         prefix = data[:1]
         for net in NETWORKS.values():
             if prefix == net["p2pkh"]:
@@ -186,6 +188,8 @@ def address_to_scriptpubkey(addr):
     except:
         # fail - then it's bech32 address
         hrp = addr.split("1")[0]
+        if hrp not in [net["bech32"] for net in NETWORKS.values()]:
+            raise EmbitError("Invalid bech32 address")
         ver, data = bech32.decode(hrp, addr)
         if ver not in [0, 1] or len(data) not in [20, 32]:
             raise EmbitError("Invalid bech32 address")
